@@ -444,3 +444,43 @@ def no_loop_variable_capture(ctx, rule):
     cm = control_model("class A(object):\n    pass\nfor _name, _op in (('a', 1), ('b', 2)):\n    setattr(A, _name, lambda self, other: (_op, other))\n")
     ctx.control(rule + " loop capture", bool(loop_variable_captures(cm)), "(late-binding lambda in a loop)")
     return n
+
+
+def flat_guards(p, upto=None):
+    """Guards of a path with top-level conjunctions split into their conjuncts."""
+    out = set()
+    for g in p.guards(upto):
+        out |= set(g[2]) if g[0] == "bool" and g[1] == "and" else {g}
+    return out
+
+
+def decided(p, cond):
+    """True / False if the path's guards contain cond / its negation (conjunctions flattened), else None."""
+    g = flat_guards(p)
+    if cond in g:
+        return True
+    if N.mk_not(cond) in g:
+        return False
+    return None
+
+
+def specialise(t, p):
+    """The reference term t with every conditional `c ? a : b` resolved by the path's guards (S expands conditional expressions into
+    guarded paths, so a reference written with conditionals is compared path by path)."""
+    if not isinstance(t, tuple) or not t:
+        return t
+    if t[0] == "ite":
+        d = decided(p, t[1])
+        if d is None and t[1][0] == "bool":
+            # a compound condition: decided if the path carries it (or its negation) as a whole, or decides all of its parts
+            parts = [decided(p, x) for x in t[1][2]]
+            if all(x is not None for x in parts):
+                d = all(parts) if t[1][1] == "and" else any(parts)
+        if d is True:
+            return specialise(t[2], p)
+        if d is False:
+            return specialise(t[3], p)
+        return ("ite", t[1], specialise(t[2], p), specialise(t[3], p))
+    if t[0] == "c":
+        return t
+    return tuple(specialise(x, p) if isinstance(x, tuple) else x for x in t)
